@@ -149,14 +149,30 @@ def _apply_diff(root: str, diff_text: str) -> Optional[Dict[str, str]]:
             text = f.read().split('\n')
         shift = 0
         for start, old, new in hs:
-            while old and old[-1] == '' and new and new[-1] == '' and len(old) > 1 and False:
-                old.pop(), new.pop()
-            cands = [k for k in range(0, len(text) - len(old) + 1) if text[k:k + len(old)] == old]
-            if not cands:
+            # like patch(1): if the hunk does not match as a whole, drop up to two lines of pure context at either end
+            lead = 0
+            while lead < len(old) and lead < len(new) and old[lead] == new[lead]:
+                lead += 1
+            trail = 0
+            while trail < len(old) - lead and trail < len(new) - lead and old[len(old) - 1 - trail] == new[len(new) - 1 - trail]:
+                trail += 1
+            placed = False
+            for fuzz in (0, 1, 2):
+                a, b = min(fuzz, lead), min(fuzz, trail)
+                o = old[a:len(old) - b] if b else old[a:]
+                n = new[a:len(new) - b] if b else new[a:]
+                if not o:
+                    continue
+                cands = [k for k in range(0, len(text) - len(o) + 1) if text[k:k + len(o)] == o]
+                if not cands:
+                    continue
+                k = min(cands, key=lambda c: abs(c - (start - 1 + a + shift)))
+                text[k:k + len(o)] = n
+                shift += len(n) - len(o)
+                placed = True
+                break
+            if not placed:
                 return None
-            k = min(cands, key=lambda c: abs(c - (start - 1 + shift)))
-            text[k:k + len(old)] = new
-            shift += len(new) - len(old)
         overlay[rel] = '\n'.join(text)
     return overlay
 
